@@ -132,6 +132,17 @@ def is_copy_call(node):
     return None
 
 
+def _is_state_target(node):
+    """assignment to self.<attr> or to an element of self.<attr> (a state update of the object)"""
+    tgts = node.targets if isinstance(node, ast.Assign) else [node.target]
+    for t in tgts:
+        while isinstance(t, ast.Subscript):
+            t = t.value
+        if isinstance(t, ast.Attribute) and isinstance(t.value, ast.Name) and t.value.id == "self":
+            return True
+    return False
+
+
 def sites(fn):
     out = []
     body_nodes = list(ast.walk(fn))
@@ -158,6 +169,11 @@ def sites(fn):
             out.append(("negate", idx, 0))
         elif isinstance(node, ast.Expr) and isinstance(node.value, ast.Call):
             out.append(("delete", idx, 0))
+        elif isinstance(node, (ast.Assign, ast.AugAssign)) and _is_state_target(node):
+            out.append(("delassign", idx, 0))
+        if isinstance(node, ast.Call) and len(node.args) >= 2 and not any(isinstance(a, ast.Starred) for a in node.args[:2]) \
+                and ast.dump(node.args[0]) != ast.dump(node.args[1]):
+            out.append(("swapargs", idx, 0))
         if is_copy_call(node) is not None:
             out.append(("uncopy", idx, 0))
     return out
@@ -205,6 +221,12 @@ def mutate(fn, site):
     elif kind == "delete":
         desc = "delete call statement"
         m = _Replace(node, ast.Pass()).visit(m)
+    elif kind == "delassign":
+        desc = "delete state assignment"
+        m = _Replace(node, ast.Pass()).visit(m)
+    elif kind == "swapargs":
+        desc = "swap first two arguments"
+        node.args[0], node.args[1] = node.args[1], node.args[0]
     elif kind == "uncopy":
         desc = "drop copy"
         m = _Replace(node, is_copy_call(node)).visit(m)
